@@ -239,6 +239,8 @@ where
     /// assert!(a.out_degree() == 2);
     /// ```
     pub fn out_degree(&self) -> usize {
+        #[cfg(gdsl_verif)]
+        crate::verif_hooks::lock_point(&self.inner.2, crate::verif_hooks::Mode::Read);
         self.inner.2.read().unwrap().len_outbound()
     }
 
@@ -259,6 +261,8 @@ where
     ///
     /// assert!(a.in_degree() == 2);
     pub fn in_degree(&self) -> usize {
+        #[cfg(gdsl_verif)]
+        crate::verif_hooks::lock_point(&self.inner.2, crate::verif_hooks::Mode::Read);
         self.inner.2.read().unwrap().len_inbound()
     }
 
@@ -280,11 +284,15 @@ where
     /// assert!(n1.is_connected(n2.key()));
     /// ```
     pub fn connect(&self, other: &Self, value: E) {
+        #[cfg(gdsl_verif)]
+        crate::verif_hooks::lock_point(&self.inner.2, crate::verif_hooks::Mode::Write);
         self.inner
             .2
             .write()
             .unwrap()
             .push_outbound((other.clone(), value.clone()));
+        #[cfg(gdsl_verif)]
+        crate::verif_hooks::lock_point(&other.inner.2, crate::verif_hooks::Mode::Write);
         other
             .inner
             .2
@@ -351,9 +359,13 @@ where
     pub fn disconnect(&self, other: &K) -> Result<E, Error> {
         match self.find_outbound(other) {
             Some(other) => {
+                #[cfg(gdsl_verif)]
+                crate::verif_hooks::lock_point(&self.inner.2, crate::verif_hooks::Mode::Write);
                 let removed = self.inner.2.write().unwrap().remove_outbound(other.key());
                 match removed {
                     Ok(edge) => {
+                        #[cfg(gdsl_verif)]
+                        crate::verif_hooks::lock_point(&other.inner.2, crate::verif_hooks::Mode::Write);
                         other.inner.2.write().unwrap().remove_inbound(self.key())?;
                         Ok(edge)
                     }
@@ -393,6 +405,8 @@ where
     /// ```
     pub fn isolate(&self) {
         for Edge(_, v, _) in self.iter_out() {
+            #[cfg(gdsl_verif)]
+            crate::verif_hooks::lock_point(&v.inner.2, crate::verif_hooks::Mode::Write);
             v.inner
                 .2
                 .write()
@@ -401,6 +415,8 @@ where
                 .unwrap();
         }
         for Edge(v, _, _) in self.iter_in() {
+            #[cfg(gdsl_verif)]
+            crate::verif_hooks::lock_point(&v.inner.2, crate::verif_hooks::Mode::Write);
             v.inner
                 .2
                 .write()
@@ -408,7 +424,11 @@ where
                 .remove_outbound(self.key())
                 .unwrap();
         }
+        #[cfg(gdsl_verif)]
+        crate::verif_hooks::lock_point(&self.inner.2, crate::verif_hooks::Mode::Write);
         self.inner.2.write().unwrap().clear_outbound();
+        #[cfg(gdsl_verif)]
+        crate::verif_hooks::lock_point(&self.inner.2, crate::verif_hooks::Mode::Write);
         self.inner.2.write().unwrap().clear_inbound();
     }
 
@@ -429,6 +449,8 @@ where
     /// assert!(!n2.is_root());
     /// ```
     pub fn is_root(&self) -> bool {
+        #[cfg(gdsl_verif)]
+        crate::verif_hooks::lock_point(&self.inner.2, crate::verif_hooks::Mode::Read);
         self.inner.2.read().unwrap().len_inbound() == 0
     }
 
@@ -449,6 +471,8 @@ where
     /// assert!(n2.is_leaf());
     /// ```
     pub fn is_leaf(&self) -> bool {
+        #[cfg(gdsl_verif)]
+        crate::verif_hooks::lock_point(&self.inner.2, crate::verif_hooks::Mode::Read);
         self.inner.2.read().unwrap().len_outbound() == 0
     }
 
@@ -514,6 +538,8 @@ where
     /// assert!(n1.find_outbound(&4).is_none());
     /// ```
     pub fn find_outbound(&self, other: &K) -> Option<Node<K, N, E>> {
+        #[cfg(gdsl_verif)]
+        crate::verif_hooks::lock_point(&self.inner.2, crate::verif_hooks::Mode::Read);
         let edge = self.inner.2.read().unwrap();
         let edge = edge.find_outbound(other);
         edge.map(|edge| edge.0.upgrade().unwrap())
@@ -540,6 +566,8 @@ where
     /// assert!(n1.find_inbound(&4).is_none());
     /// ```
     pub fn find_inbound(&self, other: &K) -> Option<Node<K, N, E>> {
+        #[cfg(gdsl_verif)]
+        crate::verif_hooks::lock_point(&self.inner.2, crate::verif_hooks::Mode::Read);
         let edge = self.inner.2.read().unwrap();
         let edge = edge.find_inbound(other);
         edge.map(|edge| edge.0.upgrade().unwrap())
@@ -752,6 +780,8 @@ where
 
     /// Return's the node's size in bytes.
     pub fn sizeof(&self) -> usize {
+        #[cfg(gdsl_verif)]
+        crate::verif_hooks::lock_point(&self.inner.2, crate::verif_hooks::Mode::Read);
         std::mem::size_of::<Node<K, N, E>>()
             + std::mem::size_of::<K>()
             + std::mem::size_of::<N>()
@@ -832,6 +862,8 @@ where
     type Item = Edge<K, N, E>;
 
     fn next(&mut self) -> Option<Self::Item> {
+        #[cfg(gdsl_verif)]
+        crate::verif_hooks::lock_point(&self.node.inner.2, crate::verif_hooks::Mode::Read);
         match self
             .node
             .inner
@@ -872,6 +904,8 @@ where
     type Item = Edge<K, N, E>;
 
     fn next(&mut self) -> Option<Self::Item> {
+        #[cfg(gdsl_verif)]
+        crate::verif_hooks::lock_point(&self.node.inner.2, crate::verif_hooks::Mode::Read);
         match self.node.inner.2.read().unwrap().get_inbound(self.position) {
             Some(current) => {
                 self.position += 1;
